@@ -336,6 +336,17 @@ def gen_rfd(rnd, f, kind, direction=DI.BIDIRECTIONAL, side=None):
     if kind in ('lsb', 'lsbv'):
         x = rnd.randint(0, n)
         return RuleFieldDescriptor(f.id, n if kind == 'lsb' else 0, f.position, direction, mk(fb[:x], sd()), MO.MSB, CDA.LSB)
+    if kind == 'vst':
+        # value-sent under a descriptor that carries a target value (equal / value-sent, MSB / value-sent: legal pairings outside the
+        # five of C01; the residue is the whole field, announced by its OWN size when the length is variable)
+        mo_ = rnd.choice([MO.EQUAL, MO.MSB])
+        tvb = fb if mo_ == MO.EQUAL else fb[:rnd.randint(0, n)]
+        return RuleFieldDescriptor(f.id, rnd.choice([0, n]), f.position, direction, mk(tvb, sd()), mo_, CDA.VALUE_SENT)
+    if kind == 'lsbi':
+        # LSB under ignore with a declared length that is 0, the field's, or ANOTHER one (the operator does not look at the length):
+        # the residue is what follows the pattern IN THE FIELD.  Compress-side only: the decompressor goes by the declared length.
+        x = rnd.randint(0, n)
+        return RuleFieldDescriptor(f.id, rnd.choice([0, n, n + 8, max(1, n - 8), n + 1, n + 16]), f.position, direction, mk(fb[:x], sd()), MO.IGNORE, CDA.LSB)
     if kind == 'map':
         kk = rnd.randint(1, 3)
         size = rnd.randint(1, 2 ** kk)
